@@ -51,7 +51,9 @@ fn conformance(prop: &str, ctx: &mut Ctx, w: &World, st: &St, t: &PTx, fin: &Fin
             *mm.entry((p.clone(), n.clone())).or_insert(0) += *q;
         }
     }
-    let want: BTreeMap<(Vec<u8>, Vec<u8>), i128> = st.m.mint.iter().map(|((p, n), q)| ((w.policies[*p].to_bytes(), w.names[*n].name()), *q)).collect();
+    // an asset whose mints and burns cancel is not expected in the body
+    let want: BTreeMap<(Vec<u8>, Vec<u8>), i128> = st.m.mint.iter().filter(|(_, q)| **q != 0).map(|((p, n), q)| ((w.policies[*p].to_bytes(), w.names[*n].name()), *q)).collect();
+    mm.retain(|_, q| *q != 0);
     if mm != want {
         ctx.violation(format!("{}/conformance/mint", prop), format!("body {:?} model {:?}", mm, want));
     }
